@@ -143,7 +143,32 @@ def pre_remove_after_kind_test(facts, reach):
     return True, "%d callers, kind test dominates the detach" % len(callers)
 
 
+def pre_indent_affine(facts, reach):
+    """Every call of an `indented` printer passes a constant or `own indent parameter + constant`: the indentation is at most
+    (constant x nesting depth of the in-memory tree), i.e. linear in the size of the input."""
+    import e1
+    from props import c14
+    n = 0
+    for f in facts.fns.values():
+        if f["crate"] not in ("xml_info", "xml_dom", "xml_xpath", "xq", "xe") or "mir" not in f:
+            continue
+        defs = e1.def_sites(facts, f)
+        for bi, t in facts.mir_calls(f):
+            c = t.get("callee")
+            if not c or not facts.callee_name(c).endswith("::indented"):
+                continue
+            n += 1
+            a = c14.affine(facts, f, defs, t["args"][1])
+            ok = a[0] == "const" or (a[0].startswith("arg:") and 0 <= a[1] <= 16)
+            if not ok:
+                return False, "%s calls indented() with an indentation that is neither a constant nor its own parameter plus a constant (%s%+d)" % (f["path"], a[0], a[1])
+    if n < 8:
+        return False, "only %d calls of indented() found" % n
+    return True, "%d calls of indented(): constant or parameter + constant" % n
+
+
 PRECONDITIONS = {
+    "indent_affine": pre_indent_affine,
     "remove_after_kind_test": pre_remove_after_kind_test,
     "xpath_tokens": pre_xpath_tokens,
     "radix_domain": pre_radix_domain,
@@ -162,6 +187,11 @@ R = {}
 def r(key, reason, pre=None):
     R[key] = (reason, pre)
 
+
+# ---- " ".repeat(indent) in the pretty printers
+for ty in ("XmlComment", "XmlElement", "XmlEntity", "XmlNotation", "XmlProcessingInstruction", "XmlUnparsedEntity"):
+    r("xml_info::<%s as IndentedDisplay>::indented|alloc|repeat#1" % ty,
+      "the indentation string has `indent` bytes and indent <= 4 x nesting depth of the tree being printed", "indent_affine")
 
 # ---- radix is 10 or 16
 for k in ("xml_info::<XmlCharReference as std::fmt::Display>::fmt|panic|unreachable!#1",
